@@ -225,8 +225,8 @@ DIMS = [
     ("downsample", [None, 5]),
     ("motion_filter", [None, (0.5, 30.0), (100.0, 40.0), (2.5, 170.0)]),
     ("t_max_diff", [0.01, 0.3]),
-    ("t_offset", [0.0, 0.125, 1.0]),
-    ("crop", [None, (1.5, 3.5)]),
+    ("t_offset", [0.0, 0.125, 1.0, -0.26]),
+    ("crop", [None, (1.5, 3.5), (2.0, None), (None, 3.0)]),
     ("project", [None, "xy", "xz", "yz"]),
     ("unit", [None, "compatible", "incompatible"]),
     ("fmt", ["tum", "kitti", "euroc"]),
@@ -367,14 +367,17 @@ def self_test():
         ctxs = [base, dict(base, align="as", t_max_diff=0.3),
                 dict(base, t_offset=0.125), dict(base, t_max_diff=0.3),
                 dict(base, relation="trans_part")]
-        distinct = False
-        for b in ctxs:
-            sigs = {json.dumps(v): sig(dict(b, **{name: v})) for v in values}
-            need = len(values) - (1 if name in ("relation", "fmt") else 0)
-            # (the TUM and EuRoC fixtures hold the same data)
-            # (translation part and point distance coincide for APE)
-            if len(set(sigs.values())) >= need:
-                distinct = True
+        # every pair of values must be told apart in at least one context
+        # (the TUM and EuRoC fixtures hold the same data; translation part
+        # and point distance coincide for APE: one pair may coincide there)
+        undistinguished = set()
+        for i in range(len(values)):
+            for j in range(i + 1, len(values)):
+                if not any(sig(dict(b, **{name: values[i]})) !=
+                           sig(dict(b, **{name: values[j]})) for b in ctxs):
+                    undistinguished.add((i, j))
+        distinct = len(undistinguished) <= (1 if name in ("relation", "fmt")
+                                            else 0)
         if not distinct and name not in ("n_to_align", ):
             raise HarnessError("fixture cannot distinguish the values of "
                                "option %s" % name)
@@ -407,6 +410,20 @@ def lattice_points(ctx):
                 "crop": None, "unit": None}
         for p in lattice.product(sub2):
             q = dict(base)
+            q.update(p)
+            pts.append(q)
+    # one-sided time ranges and a negative offset x the steps that depend on
+    # which poses remain
+    sub4 = [("crop", [(2.0, None), (None, 3.0), (1.5, 3.5)]),
+            ("t_offset", [0.0, -0.26, 0.125]), ("t_max_diff", [0.01, 0.3]),
+            ("relation", ["full", "trans_part", "angle_deg"]),
+            ("align", DIMS[1][1]), ("downsample", [None, 5]),
+            ("epoch", [0.0, 1.5e9])]
+    base4 = {"n_to_align": -1, "motion_filter": None, "project": None,
+             "unit": None, "fmt": "tum"}
+    if not ctx.thorough:
+        for p in lattice.product(sub4):
+            q = dict(base4)
             q.update(p)
             pts.append(q)
     # geometry variants of the estimate (mirrored / far from the origin / the
